@@ -3,7 +3,7 @@
     to their OCaml counterparts; N / positive / nat stay inductive types. *)
 From Coq Require Extraction ExtrOcamlBasic.
 From Tftp Require Import Base.Prelude Base.Utf8 Base.Decimal Model.Types Model.Consts Model.Codec
-  Model.Window Model.Worker Model.Rfc Model.Monitors Model.Config Model.Server Model.Net.
+  Model.Window Model.Worker Model.Rfc Model.Monitors Model.Config Model.Server Model.Net Model.Client.
 Extraction Language OCaml.
 Extraction "model.ml"
   N.of_uint N.to_uint N.add N.mul N.div N.modulo N.eqb N.ltb N.leb N.of_nat N.to_nat
@@ -14,4 +14,5 @@ Extraction "model.ml"
   max_retries
   okC10 okC11_enc okC11_conv rfc_layout okSend okRecv fnv_extend fnv_init parse_args parse_client_args okDupArgs
   listen_step lstate_init worker_ended stat kind_of create_file remove_file lookup_entry set_entry run_download run_upload nblocks_of
-  convert_file_path join validate_file_path parse_options default_wopts msg_invalid_request kernel_segs unhonourable pair_init pair_step.
+  convert_file_path join validate_file_path parse_options default_wopts msg_invalid_request kernel_segs unhonourable pair_init pair_step
+  download_request upload_request on_first_reply_download on_first_reply_upload download_target file_name.
